@@ -69,6 +69,8 @@ enum Kind {
     Len,
     Rev,
     Iter,
+    /// a `for` loop reading the item and loop.index / index0 / first / last / length, with an else branch
+    ForMeta,
     /// `truncate(length=a)` / `truncate(length=a, end=b)`
     Trunc(bool),
 }
@@ -101,6 +103,7 @@ fn tpl_name(kind: Kind, opt: bool) -> String {
         Kind::Len => "len".into(),
         Kind::Rev => "rev".into(),
         Kind::Iter => "iter".into(),
+        Kind::ForMeta => "formeta".into(),
         Kind::Trunc(false) => "trunc".into(),
         Kind::Trunc(true) => "trunce".into(),
     }
@@ -113,6 +116,7 @@ fn tpl_src(kind: Kind, opt: bool) -> String {
         Kind::Len => "{{ x | length | probe }}".into(),
         Kind::Rev => "{{ x | reverse | probe }}".into(),
         Kind::Iter => "{% for ch in x %}{{ ch | push }}{% endfor %}".into(),
+        Kind::ForMeta => "{% for ch in x %}{{ [ch, loop.index, loop.index0, loop.first, loop.last, loop.length] | push }}{% else %}{{ \"EMPTY\" | push }}{% endfor %}".into(),
         Kind::Trunc(false) => "{{ x | truncate(length=a) | probe }}".into(),
         Kind::Trunc(true) => "{{ x | truncate(length=a, end=b) | probe }}".into(),
     }
@@ -176,7 +180,7 @@ fn engine() -> Tera {
             tpls.push((tpl_name(Kind::Slice(f), opt), tpl_src(Kind::Slice(f), opt)));
         }
     }
-    for k in [Kind::Len, Kind::Rev, Kind::Iter, Kind::Trunc(false), Kind::Trunc(true)] {
+    for k in [Kind::Len, Kind::Rev, Kind::Iter, Kind::ForMeta, Kind::Trunc(false), Kind::Trunc(true)] {
         tpls.push((tpl_name(k, false), tpl_src(k, false)));
     }
     tera.add_raw_templates(tpls).expect("probe templates");
@@ -233,7 +237,7 @@ fn run_case(tera: &Tera, c: &Case) -> String {
     match res {
         Err(p) => format!("panic {p}"),
         Ok(Ok(_)) => {
-            if c.kind == Kind::Iter {
+            if c.kind == Kind::Iter || c.kind == Kind::ForMeta {
                 let items = PUSHED.with(|p| std::mem::take(&mut *p.borrow_mut()));
                 format!("ok {}", encode(&Value::from(items)))
             } else {
@@ -282,6 +286,30 @@ fn model_reqs(c: &Case, imp: &str) -> Vec<(String, String)> {
         }
         Kind::Len => out.push((format!("len {}", c.x.wire()), imp.to_string())),
         Kind::Rev => out.push((format!("rev {}", c.x.wire()), imp.to_string())),
+        Kind::ForMeta => {
+            out.push((format!("for {}", c.x.wire()), imp.to_string()));
+            let xv = c.x.val();
+            if let Some(bytes) = str_bytes(&xv) {
+                // byte-level loop model (iterator with its `remaining` counter): items as bytes + loop data
+                let rows = imp.strip_prefix("ok ").and_then(decode);
+                let exp = match rows.as_ref().and_then(|v| v.as_array()) {
+                    Some(a) if bytes.is_empty() && a.len() == 1 && a[0].as_str() == Some("EMPTY") => "ok L0".to_string(),
+                    Some(a) => {
+                        let mut t = format!("ok L{}", a.len());
+                        for row in a.iter() {
+                            let f = row.as_array().map(|r| r.to_vec()).unwrap_or_default();
+                            let g = |i: usize| f.get(i).cloned().unwrap_or_else(Value::undefined);
+                            let bit = |v: Value| match v.as_bool() { Some(true) => "1", Some(false) => "0", None => "?" };
+                            let num = |v: Value| v.as_u128().map(|n| n.to_string()).unwrap_or_else(|| "?".into());
+                            t.push_str(&format!(" h:{}/{}/{}/{}/{}/{}", hex(g(0).as_str().map(|x| x.as_bytes()).unwrap_or(b"?")), num(g(1)), num(g(2)), bit(g(3)), bit(g(4)), num(g(5))));
+                        }
+                        t
+                    }
+                    None => imp.to_string(),
+                };
+                out.push((format!("forb h:{}", hex(&bytes)), exp));
+            }
+        }
         Kind::Iter => {
             let xv = c.x.val();
             if let Some(bytes) = str_bytes(&xv) {
@@ -581,6 +609,34 @@ fn oracle(c: &Case, imp: &str) -> Result<bool, String> {
             }
             _ => Ok(false),
         },
+        Kind::ForMeta => {
+            // items by characters / elements / bytes, and the loop variables computed from the
+            // number of characters (`chars().count()`), elements or bytes
+            let xv = c.x.val();
+            let items: Vec<Value> = if let Some(s) = xv.as_str() {
+                s.chars().map(|ch| Value::from(ch.to_string())).collect()
+            } else if let Some(a) = xv.as_array() {
+                a.to_vec()
+            } else if let Some(b) = xv.as_bytes() {
+                b.iter().map(|x| Value::from(*x as u64)).collect()
+            } else {
+                return Ok(false);
+            };
+            let n = items.len();
+            let want = if n == 0 {
+                Value::from(vec![Value::from("EMPTY")])
+            } else {
+                Value::from(
+                    items
+                        .into_iter()
+                        .enumerate()
+                        .map(|(k, it)| Value::from(vec![it, Value::from(k as u64 + 1), Value::from(k as u64), Value::from(k == 0), Value::from(k + 1 == n), Value::from(n as u64)]))
+                        .collect::<Vec<_>>(),
+                )
+            };
+            let w = format!("ok {}", encode(&want));
+            if imp == w { Ok(true) } else { Err(format!("for loop over {n} items: want [item, loop.index, loop.index0, loop.first, loop.last, loop.length] = `{w}`, engine `{imp}`")) }
+        }
         Kind::Iter => match recv_of(&c.x) {
             Recv::Str(s, _) => {
                 let got = imp.strip_prefix("ok ").and_then(decode);
@@ -918,7 +974,7 @@ fn gen_text_ops(rng: &mut Rng, n_random: usize, max_len: usize, out: &mut Vec<Ca
     let none = || Opnd::Missing;
     for s in &strings {
         let nchars = s.as_str().unwrap().chars().count();
-        for kind in [Kind::Len, Kind::Rev, Kind::Iter] {
+        for kind in [Kind::Len, Kind::Rev, Kind::Iter, Kind::ForMeta] {
             out.push(Case { kind, opt: false, x: Opnd::Val(s.clone()), a: none(), b: none(), c: none(), stream: "text", lit: 0 });
         }
         let mut ns: Vec<usize> = vec![0, 1, nchars.saturating_sub(1), nchars, nchars + 1, 1000];
@@ -937,6 +993,12 @@ fn gen_text_ops(rng: &mut Rng, n_random: usize, max_len: usize, out: &mut Vec<Ca
         for kind in [Kind::Len, Kind::Rev] {
             out.push(Case { kind, opt: false, x: Opnd::Val(a.clone()), a: none(), b: none(), c: none(), stream: "text", lit: 0 });
         }
+    }
+    for len in [0usize, 1, 2, 3, 5, 9, 33] {
+        let a = Value::from((0..len).map(|_| random_elem(rng)).collect::<Vec<_>>());
+        out.push(Case { kind: Kind::ForMeta, opt: false, x: Opnd::Val(a), a: none(), b: none(), c: none(), stream: "text.loop-array", lit: 0 });
+        let b = Value::bytes((0..len).map(|_| rng.below(256) as u8).collect::<Vec<u8>>());
+        out.push(Case { kind: Kind::ForMeta, opt: false, x: Opnd::Val(b), a: none(), b: none(), c: none(), stream: "text.loop-bytes", lit: 0 });
     }
     for v in [Value::from(3), Value::none(), Value::from(true), Value::bytes(vec![1u8, 2, 3])] {
         for kind in [Kind::Len, Kind::Rev] {
@@ -1060,6 +1122,7 @@ fn replay_json(c: &Case, imp: &str, extra: serde_json::Value) -> serde_json::Val
         Kind::Len => "len",
         Kind::Rev => "rev",
         Kind::Iter => "iter",
+        Kind::ForMeta => "formeta",
         Kind::Trunc(_) => "trunc",
     };
     serde_json::json!({
@@ -1079,6 +1142,7 @@ fn case_from_replay(j: &serde_json::Value) -> Case {
         "len" => Kind::Len,
         "rev" => Kind::Rev,
         "iter" => Kind::Iter,
+        "formeta" => Kind::ForMeta,
         "trunc" => Kind::Trunc(j["has_end"].as_bool().unwrap_or(false)),
         k => panic!("unknown kind {k}"),
     };
@@ -1309,7 +1373,7 @@ fn process_batch(tera: &Tera, exe: &std::path::Path, threads: usize, cases: Vec<
         report.evaluations += 1;
         acc.total += 1;
         let class = if ev.imp.starts_with("err") { ev.imp.clone() } else { ev.imp.split(' ').next().unwrap_or("").to_string() };
-        let kind = match c.kind { Kind::Idx => "index", Kind::Slice(_) => "slice", Kind::Len => "length", Kind::Rev => "reverse", Kind::Iter => "for", Kind::Trunc(_) => "truncate" };
+        let kind = match c.kind { Kind::Idx => "index", Kind::Slice(_) => "slice", Kind::Len => "length", Kind::Rev => "reverse", Kind::Iter => "for", Kind::ForMeta => "for-loop-vars", Kind::Trunc(_) => "truncate" };
         report.count(&format!("outcome.{kind}.{class}"));
         report.count(&format!("stream.{}", c.stream));
         if let Kind::Slice(f) = c.kind {
@@ -1376,7 +1440,7 @@ fn main() {
         let j: serde_json::Value = serde_json::from_str(&text).expect("replay json");
         // accepted shapes: the case itself, the file the check writes for a property violation
         // ({"replay": case}), or for a broken correspondence ({"no_longer_checks": [{"case": case}, ..]})
-        let is_case = |v: &serde_json::Value| v.get("kind").and_then(|k| k.as_str()).is_some_and(|k| ["idx", "slice", "len", "rev", "iter", "trunc"].contains(&k));
+        let is_case = |v: &serde_json::Value| v.get("kind").and_then(|k| k.as_str()).is_some_and(|k| ["idx", "slice", "len", "rev", "iter", "formeta", "trunc"].contains(&k));
         let j = if is_case(&j) {
             j
         } else if is_case(&j["replay"]) {
@@ -1514,7 +1578,7 @@ fn main() {
                     Kind::Idx => "correspondence:get_item",
                     Kind::Slice(_) => "correspondence:slice",
                     Kind::Len | Kind::Rev => "correspondence:len-reverse",
-                    Kind::Iter => "correspondence:string-iteration",
+                    Kind::Iter | Kind::ForMeta => "correspondence:string-iteration",
                     Kind::Trunc(_) => "correspondence:truncate",
                 };
                 // the shrunk case may disagree on another of its requests: report the first that does
